@@ -41,6 +41,8 @@ type simConn struct {
 	rdl      time.Time
 	wdl      time.Time
 
+	writeYield  bool          // Write parks until released by the controller
+	writeParked chan struct{} // non-nil while a Write is parked
 	auto       bool // free-running mode: the wire is delivered at once
 	rstPending bool // free-running mode: reset once the inbox is drained
 	consumed   int  // bytes the client has read
@@ -128,6 +130,15 @@ func (c *simConn) Read(p []byte) (int, error) {
 
 func (c *simConn) Write(p []byte) (int, error) {
 	c.mu.Lock()
+	if c.writeYield && !c.auto && !c.closed && !c.rst {
+		// a slow network: the write blocks until the controller lets it through
+		// (a quiescent point inside the driver's handshake / dump request / COM_QUIT)
+		ch := make(chan struct{})
+		c.writeParked = ch
+		c.mu.Unlock()
+		<-ch
+		c.mu.Lock()
+	}
 	defer c.mu.Unlock()
 	c.nWrites++
 	if c.closed {
@@ -251,4 +262,23 @@ func (c *simConn) isClosed() bool {
 	c.mu.Lock()
 	defer c.mu.Unlock()
 	return c.closed
+}
+
+// releaseWrite lets a parked Write proceed; it reports whether one was parked.
+func (c *simConn) releaseWrite() bool {
+	c.mu.Lock()
+	ch := c.writeParked
+	c.writeParked = nil
+	c.mu.Unlock()
+	if ch != nil {
+		close(ch)
+		return true
+	}
+	return false
+}
+
+func (c *simConn) writeIsParked() bool {
+	c.mu.Lock()
+	defer c.mu.Unlock()
+	return c.writeParked != nil
 }
